@@ -60,7 +60,12 @@ impl SocketSend for ReqSocket {
             if let Some(mut peer) = self.backend.peers.get_async(&next_peer_id).await {
                 self.backend.round_robin.push(next_peer_id.clone());
                 message.push_front(Bytes::new());
-                peer.send_queue.send(Message::Message(message)).await?;
+                if let Err(e) = peer.send_queue.send(Message::Message(message)).await {
+                    // The connection is gone: forget the peer. Its id is still
+                    // in the rotation and is skipped once the entry is gone.
+                    let _ = peer.remove_entry();
+                    return Err(e.into());
+                }
                 self.current_request = Some(next_peer_id);
                 return Ok(());
             }
@@ -79,6 +84,11 @@ impl SocketRecv for ReqSocket {
                 if let Some(mut peer) = self.backend.peers.get_async(&peer_id).await {
                     let reply = peer.recv_queue.next().await;
                     self.current_request = None;
+                    if !matches!(reply, Some(Ok(_))) {
+                        // End of stream or a failed connection: release the
+                        // peer; its id is skipped by send() once it is gone.
+                        let _ = peer.remove_entry();
+                    }
                     match reply {
                         Some(Ok(Message::Message(mut m))) => {
                             if m.len() < 2 {
